@@ -912,7 +912,28 @@ def inst(t, T, TB):
     return t.replace('@TB@', str(TB)).replace('@T@', T).replace('@HALFM1@', HALFM1[TB])
 
 
-import os, io
+import os, io, re
+
+DBITS = {'u64': 64, 'u32': 32, 'u16': 16, 'u8': 8}
+_LOOPINV = re.compile(r'(\n\s*loop\n\s*/\*@\{\*/) invariant .*?(decreases N - i /\*\}@\*/)', re.S)
+
+
+def emit_to(w, text, TB):
+    """The digit-by-digit loop of to_int! sits in the else-branch of `if Digit::BITS > <int>::BITS`: for digit types
+    wider than the target it is statically dead code.  Such digit types get a second copy of the entry whose dead
+    loop carries only `decreases` (no invariant, hence no vacuity canary that could never fire); the digit types
+    for which the loop is live get the full annotation."""
+    dead = [d for d in ('u64', 'u32', 'u16', 'u8') if DBITS[d] > TB]
+    live = [d for d in ('u64', 'u32', 'u16', 'u8') if DBITS[d] <= TB]
+    if not dead:
+        w(text)
+        return
+    hdr_end = text.index(']', text.index('//! fn'))
+    w(text[:hdr_end] + ' digits=' + ','.join(live) + text[hdr_end:])
+    t2 = _LOOPINV.sub(lambda m: m.group(1) + ' ' + m.group(2), text)
+    assert t2 != text
+    w(t2[:hdr_end] + ' digits=' + ','.join(dead) + t2[hdr_end:])
+
 OUT = {1: io.StringIO(), 2: io.StringIO(), 3: io.StringIO()}
 CUR = [1]
 
@@ -961,10 +982,10 @@ for T, U, TB in ST:
     w(inst(LEMMAS_S, T, TB).replace('@U@', U).replace('@HALF@', HALF[TB]).lstrip('\n'))
 for T, TB in UT:
     if want('to_' + T):
-        w(inst(BU_TO_U, T, TB).lstrip('\n'))
+        emit_to(w, inst(BU_TO_U, T, TB).lstrip('\n'), TB)
 for T, U, TB in ST:
     if want('to_' + T):
-        w(inst(BU_TO_S, T, TB).replace('@U@', U).lstrip('\n'))
+        emit_to(w, inst(BU_TO_S, T, TB).replace('@U@', U).lstrip('\n'), TB)
 # ---- unit numtraits_conv2: ToPrimitive for $BInt
 CUR[0] = 2
 w('//! raw bn_numtraits_conv2_note\n' + NOTE)
@@ -982,7 +1003,7 @@ for T, TB in UT:
 for T, U, TB in ST:
     if want('bi_to_' + T):
         call = 'bn_lemma_numtraits_narrow2_%s(self.bits.digits[0]);' % T if T != 'i128' else ''
-        w(inst(BI_TO_S, T, TB).replace('@U@', U).replace('@NARROW2CALL@', call).lstrip('\n'))
+        emit_to(w, inst(BI_TO_S, T, TB).replace('@U@', U).replace('@NARROW2CALL@', call).lstrip('\n'), TB)
 # ---- unit numtraits_conv3: FromPrimitive
 CUR[0] = 3
 w('//! raw bn_numtraits_conv3_note\n' + NOTE)
